@@ -17,6 +17,7 @@ import (
 	"net/http"
 	"os"
 	"path/filepath"
+	"sync"
 	"time"
 
 	"github.com/andres-erbsen/clock"
@@ -85,8 +86,26 @@ func main() {
 	must(os.MkdirAll(*dir, 0o755), "mkdir")
 	log.ConfigureLogger(zc)
 
+	// The clock the store and the blob server see is real time plus an offset the
+	// parent advances: file mtimes are real, so a frozen mock would make freshly
+	// written files look as if they came from the future.
 	clk := clock.NewMock()
 	clk.Set(time.Now())
+	var clkMu sync.Mutex
+	var offset time.Duration
+	syncClock := func() {
+		clkMu.Lock()
+		if t := time.Now().Add(offset); t.After(clk.Now()) {
+			clk.Set(t)
+		}
+		clkMu.Unlock()
+	}
+	go func() {
+		for {
+			time.Sleep(5 * time.Millisecond)
+			syncClock()
+		}
+	}()
 
 	cleanup := store.CleanupConfig{
 		Disabled: true, // no background passes; the parent triggers them
@@ -161,7 +180,10 @@ func main() {
 		}
 		switch rq.Op {
 		case "advance":
-			clk.Add(time.Duration(rq.Seconds) * time.Second)
+			clkMu.Lock()
+			offset += time.Duration(rq.Seconds) * time.Second
+			clkMu.Unlock()
+			syncClock()
 			reply(map[string]interface{}{"ok": true})
 		case "cleanup":
 			if err := cas.VerifC31CleanupPass(); err != nil {
